@@ -18,6 +18,7 @@ import (
 	"os"
 	"path/filepath"
 	"regexp"
+	"sort"
 	"strings"
 
 	"github.com/DavidGamba/go-getoptions/internal/help"
@@ -368,7 +369,8 @@ func (gopt *GetOpt) Parse(args []string) ([]string, error) {
 		// If the help is called, don't check for required options since the program wont run.
 		if gopt.finalNode.HelpCommandName == "" || !gopt.Called(gopt.finalNode.HelpCommandName) {
 			// Validate required options
-			for _, option := range node.ChildOptions {
+			for _, name := range sortedOptionNames(node.ChildOptions) {
+				option := node.ChildOptions[name]
 				err := option.CheckRequired()
 				if err != nil {
 					return nil, fmt.Errorf("%w%s", ErrorParsing, err.Error())
@@ -390,6 +392,17 @@ func (gopt *GetOpt) Parse(args []string) ([]string, error) {
 	return node.ChildText, nil
 }
 
+// sortedOptionNames - Option names and aliases in a fixed order.
+// Ranging over the option map directly makes the reported missing required option random when more than one is missing.
+func sortedOptionNames(options map[string]*option.Option) []string {
+	names := make([]string, 0, len(options))
+	for name := range options {
+		names = append(names, name)
+	}
+	sort.Strings(names)
+	return names
+}
+
 // Dispatch - Handles calling commands and subcommands after the call to Parse.
 func (gopt *GetOpt) Dispatch(ctx context.Context, remaining []string) error {
 	if gopt.finalNode.HelpCommandName != "" && gopt.Called(gopt.finalNode.HelpCommandName) {
@@ -397,7 +410,8 @@ func (gopt *GetOpt) Dispatch(ctx context.Context, remaining []string) error {
 		return ErrorHelpCalled
 	}
 	// Validate required options
-	for _, option := range gopt.finalNode.ChildOptions {
+	for _, name := range sortedOptionNames(gopt.finalNode.ChildOptions) {
+		option := gopt.finalNode.ChildOptions[name]
 		err := option.CheckRequired()
 		if err != nil {
 			return fmt.Errorf("%w%s", ErrorParsing, err.Error())
